@@ -24,9 +24,11 @@ GCSecond == { [k |-> "PT", l |-> "XY", v |-> C(2,1)], [k |-> "PT", l |-> "XYZ", 
 SetVals(k, s) ==                                         \* whole values for SetCoords
   CASE k = "PT" -> {C(s,1)}
     [] k \in {"LS", "LR"} -> Lines(s)
-    [] k \in {"PG", "MLS"} -> IF s = 0 THEN {<<>>} ELSE {<<>>, <<<<>>, <<C(s,1), C(s,2)>>, <<C(s,3)>>>>}
-    [] k = "MPT" -> IF s = 0 THEN {<<NIL>>} ELSE {<<C(s,2), NIL, C(s,1)>>}
-    [] k = "MPG" -> IF s = 0 THEN {<<<<>>, <<<<>>>>>>} ELSE {<<<<>>, <<<<C(s,1)>>, <<>>>>, <<<<C(s,2), C(s,3)>>>>>>}
+    [] k \in {"PG", "MLS"} -> IF s = 0 THEN {<<>>} ELSE {<<>>, <<<<>>, <<C(s,1), C(s,2)>>, <<C(s,3)>>>>, <<<<C(s,1)>>, <<>>, <<>>>>}
+    [] k = "MPT" -> IF s = 0 THEN {<<NIL>>} ELSE {<<C(s,2), NIL, C(s,1)>>, <<C(s,1), C(s,3)>>}
+    [] k = "MPG" -> IF s = 0 THEN {<<<<>>, <<<<>>>>>>}
+                    ELSE {<<<<>>, <<<<C(s,1)>>, <<>>>>, <<<<C(s,2), C(s,3)>>>>>>,
+                          <<<<<<C(s,1), C(s,2)>>>>, <<>>, <<<<>>, <<C(s,3)>>>>, <<>>>>}       \* empty polygons in the middle and last, an empty ring first
     [] OTHER -> {}
 
 Targets(st) == {1, 2}
@@ -47,6 +49,7 @@ AllActsOf(st) ==
        \cup [op : {"srid"}, to : Targets(st), srid : {4326}]
        \cup (IF Rich THEN [op : {"reserve"}, to : Targets(st)] ELSE {})
        \cup [op : {"setcoords"}, to : Targets(st), v : SetVals(k, s)]
+       \cup {[op |-> "newflat", to |-> t, v |-> v, rep |-> Deflate(k, v)] : t \in Targets(st), v \in SetVals(k, s)}
 
 ActsOf(st) == {a \in AllActsOf(st) : a.op \in OpsUsed}
 
